@@ -158,7 +158,17 @@ pub fn scalars() -> &'static [String] {
             0x3300, 0x2126, 0x212b, 0x1f88, 0x2160, 0x33a7, 0xbd, 0xb5, 0x17f, 0x345, 0x3c2,
             // soft hyphen, Mongolian vowel separator, joiners, directional marks, BOM
             0xad, 0x180e, 0x200b, 0x200c, 0x200d, 0x200e, 0x2060, 0x2066, 0xfeff,
+            // bidi embedding / override controls (between the White_Space code points U+2028/9 and U+202F)
+            0x202a, 0x202b, 0x202c, 0x202d, 0x202e,
+            // Prepend characters
+            0x600, 0x605, 0x6dd, 0x70f, 0x8e2, 0xd4e, 0x110bd, 0x111c2,
         ] {
+            push(x);
+        }
+        // C0 controls that are not White_Space (NUL .. BS, SO .. US: the information separators
+        // U+001C-001F count as whitespace in other languages' predicates), DEL, C1 controls
+        for x in (0x00..=0x08).chain(0x0e..=0x1f).chain([0x7f, 0x80, 0x84, 0x86, 0x9f]) {
+            push(x);
             push(x);
         }
         v
